@@ -32,6 +32,11 @@ ensure_directory / the index update: two writers creating one v2 bundle (two sch
 creates the data file while a writer stores (after remove_tile created the index only).  The model side of (1) for v2
 is a theorem: v2_failed_store_leaves_valid_bundle (every prefix of the store's writes), with the opposite order refuted.
 
+Further fixed scenarios (oracle only): the bundle lock changing hands between three writers (A unlocks, B was
+waiting, C arrives: the two stores must be serialised whatever FileLock.unlock does first); a tile of 2^24 + 5 bytes
+(v2 must refuse it or store it completely, v1 stores it); a reader meeting the writer of a brand-new v1 bundle;
+EACCES on the k-th open-for-reading during a defragmentation.
+
 Oracle (independent of the model, on the real bytes after EVERY operation): every index entry is empty or points
 at a complete record inside the file whose recorded size matches; live records are pairwise disjoint and lie
 behind the fixed part; header file-size field = file length; header max-record-size >= every live record; the
@@ -1542,5 +1547,7 @@ def run(ctx):
         jobs.append(('v%d_history_defrag' % version, 'Bytes Gen_compact Bundle', 'v%d_case' % version,
                      terms[version], 'v%d_case_ok' % version, (lambda v: (lambda i: descr[v][i]))(version)))
     jobs.sort(key=lambda j: j[0])
+    for j in jobs:
+        ctx.corr.setdefault(j[0], 0)          # fixed order in the evidence, whichever finishes first
     with ThreadPoolExecutor(len(jobs)) as ex:
         list(ex.map(lambda j: ctx.corr_check(*j, shard=3), jobs))
